@@ -240,6 +240,10 @@ func (b *assignmentBuilder) createWithConverter(lhs, rhs bmodel.Node, converter 
 		if !ok {
 			return nil
 		}
+		if rhsNode.ReturnsError() {
+			// A (value, error) getter cannot be passed to a single-argument converter.
+			return nil
+		}
 
 		argNode, ok := b.castNode(converter.ArgType(), rhsNode)
 		if !ok {
@@ -248,6 +252,10 @@ func (b *assignmentBuilder) createWithConverter(lhs, rhs bmodel.Node, converter 
 			}
 			argNode, ok = b.castNode(util.DerefPtr(converter.ArgType()), rhsNode)
 			if !ok {
+				return nil
+			}
+			if !isAddressable(argNode) {
+				// The converter call would take the address with "&".
 				return nil
 			}
 		}
@@ -375,6 +383,19 @@ func (b *assignmentBuilder) castNode(lhsType types.Type, rhs bmodel.Node) (c bmo
 		return
 	}
 	return nil, false
+}
+
+// isAddressable returns true if the expression of the node can be an operand of "&":
+// a variable, or a field selected from an addressable struct or through a pointer.
+func isAddressable(node bmodel.Node) bool {
+	switch n := node.(type) {
+	case bmodel.RootNode:
+		return true
+	case bmodel.StructFieldNode:
+		return util.IsPtr(n.Parent().ExprType()) || isAddressable(n.Parent())
+	default:
+		return false
+	}
 }
 
 // isStructFieldAccessible returns true if the given struct field is accessible from the current package.
